@@ -14,7 +14,7 @@ func init() {
 			"the consumer hands over only non-nil loaded slots, clears a slot before the head is published, stops at the first unpublished slot and advances the head once per delivered element; the stripe table and stripe slots are written only inside the busy region, which is always left; expansion copies every existing stripe; draining happens only under the eviction lock; "+
 			"the status returned by Add influences nothing but the drain-scheduling decision. NOT decided: absence of loss/duplication over all interleavings.",
 		[]string{"sync/atomic operations are sequentially consistent", "a single consumer drains (decided by C17.single)"},
-		ruleC17Reserve, ruleC17Drain, ruleC17Busy, ruleC17Copy, ruleC17Single, ruleC17NoEffect)
+		ruleC17Reserve, ruleC17Drain, ruleC17Busy, ruleC17Copy, ruleC17Single, ruleC17NoEffect, ruleC17OnceAdd)
 }
 
 const lossyPkg = "internal/lossy"
@@ -548,5 +548,132 @@ func ruleC17NoEffect(cx *Ctx) {
 	ar := cx.P.Func("", "cache", "afterRead")
 	if ar != nil {
 		cx.R.Check(ar.Signature.Results().Len() == 0, rule, funcName(ar), "no result", cx.P.Pos(ar.Pos()), "the read hook has no result through which a dropped read could change a return value")
+	}
+}
+
+// ruleC17OnceAdd: one Add call records its node at most once (a recorded entry is never handed over twice).
+func ruleC17OnceAdd(cx *Ctx) {
+	const rule = "C17.onceadd"
+	cx.R.Rule(rule, 4, "within one Striped.Add / expandOrRetry call the node is recorded at most once: after a ring accepted it (add != Failed) or a new ring was created with it, no further recording is reachable")
+	radd := cx.need(rule, lossyPkg, "ring", "add")
+	newRing := cx.need(rule, lossyPkg, "", "newRing")
+	failed := statusConst(cx, "Failed")
+	if radd == nil || newRing == nil {
+		return
+	}
+	for _, fname := range []string{"Add", "expandOrRetry"} {
+		fn := cx.need(rule, lossyPkg, "Striped", fname)
+		if fn == nil {
+			continue
+		}
+		name := funcName(fn)
+		isRecord := func(in ssa.Instruction) bool {
+			if isCallTo(in, radd) {
+				return true
+			}
+			if isCallTo(in, newRing) {
+				return true
+			}
+			// delegating to expandOrRetry records too
+			if c := calleeOf(in); c != nil && c.Name() == "expandOrRetry" {
+				return true
+			}
+			return false
+		}
+		reachesRecord := func(start Pt) (bool, string) {
+			type key struct{ b, prev *ssa.BasicBlock }
+			seen := map[key]bool{}
+			var walk func(b, prev *ssa.BasicBlock, i int) (bool, string)
+			walk = func(b, prev *ssa.BasicBlock, i int) (bool, string) {
+				for ; i < len(b.Instrs); i++ {
+					if isRecord(b.Instrs[i]) {
+						return true, cx.P.where(b.Instrs[i])
+					}
+				}
+				succs := b.Succs
+				// a branch on a phi of constants is decided by the edge we came in on
+				if ifi, ok := b.Instrs[len(b.Instrs)-1].(*ssa.If); ok && prev != nil {
+					c, neg := stripNot(ifi.Cond)
+					if ph, ok := c.(*ssa.Phi); ok && ph.Block() == b {
+						for pi, p := range b.Preds {
+							if p == prev {
+								if v, ok := constBool(ph.Edges[pi]); ok {
+									if v != neg {
+										succs = b.Succs[:1]
+									} else {
+										succs = b.Succs[1:2]
+									}
+								}
+							}
+						}
+					}
+				}
+				for _, s := range succs {
+					k := key{s, b}
+					if seen[k] {
+						continue
+					}
+					seen[k] = true
+					if r, w := walk(s, b, 0); r {
+						return true, w
+					}
+				}
+				return false, ""
+			}
+			return walk(start.B, nil, start.I)
+		}
+		n := 0
+		allInstrs(fn, func(in ssa.Instruction) {
+			switch {
+			case isCallTo(in, newRing):
+				n++
+				p := ptOf(in)
+				p.I++
+				r, w := reachesRecord(p)
+				cx.R.Check(!r, rule, name, fmt.Sprintf("after newRing#%d", n), cx.P.where(in), "after the node was placed into a freshly created ring no further recording is reachable "+w)
+			case isCallTo(in, radd):
+				n++
+				v := in.(ssa.Value)
+				decided := false
+				for _, u := range usesOf(v) {
+					b, ok := u.(*ssa.BinOp)
+					if !ok {
+						continue
+					}
+					if _, c, isEq, ok := eqConst(b); ok && c == failed {
+						for _, i := range ifsOn(b) {
+							decided = true
+							idx := i.TrueIdx // edge where result == Failed (isEq) or != Failed
+							if isEq {
+								idx = 1 - idx
+							}
+							succ := i.If.Block().Succs[idx]
+							r, w := reachesRecord(Pt{succ, 0})
+							cx.R.Check(!r, rule, name, fmt.Sprintf("after accepted add#%d", n), cx.P.where(in), "once a ring accepted (or definitively refused) the node, the call does not record it again "+w)
+						}
+					}
+				}
+				if !decided {
+					// result returned directly or compared elsewhere: no later record may be reachable at all unless guarded by == Failed
+					p := ptOf(in)
+					p.I++
+					r, w := reachesRecord(p)
+					if r {
+						// allowed only through an explicit Failed test
+						okGuard := false
+						for _, u := range usesOf(v) {
+							if b, ok := u.(*ssa.BinOp); ok {
+								if _, c, _, ok := eqConst(b); ok && c == failed {
+									okGuard = true
+								}
+							}
+						}
+						cx.R.Check(okGuard, rule, name, fmt.Sprintf("after add#%d", n), cx.P.where(in), "a retry after ring.add is taken only when it reported Failed "+w)
+					} else {
+						cx.R.OK(rule, name, fmt.Sprintf("after add#%d", n), cx.P.where(in), "no further recording after this add")
+					}
+				}
+			}
+		})
 	}
 }
